@@ -233,6 +233,12 @@ class Builtins:
         v = I.unwrap(args[0], node)
         t = args[1]
         ts = t.items if isinstance(t, VTuple) else [t]
+        if isinstance(v, VOpaque) and all(isinstance(x, VClass) for x in ts):
+            # an object of an unverified class tested against repository classes: a predicate of the object (deterministic),
+            # tied to `x.__class__ == C` by the class axioms
+            for x in ts:
+                self.ctx.class_const(x.info)
+            return VBool(z3.Or(*[self.ctx.isinst_fn(x.info)(v.t) for x in ts]))
         tn = I.type_name(v, node)
         for x in ts:
             if isinstance(x, VType):
